@@ -38,12 +38,18 @@ type Config struct {
 	// session starts reading.
 	// (A transport may let the peer talk as soon as it is connected; the legacy SSE transport does.)
 	ClientFirst bool `json:"client_first,omitempty"`
+	// SlowFlush (sse only): the server's first flush of the event stream (the endpoint event) returns 1 ms
+	// after the client has seen it, so a prompt client POSTs before the handler has gone on.
+	SlowFlush bool `json:"slow_flush,omitempty"`
 }
 
 func (c Config) String() string {
 	s := fmt.Sprintf("%s/json=%v/store=%v/subset=%s/nosse=%v/emptyid=%v", c.Kind, c.JSON, c.Store, c.Subset, c.NoStandalone, c.EmptySessionID)
 	if c.ClientFirst {
 		s += "/clientfirst"
+	}
+	if c.SlowFlush {
+		s += "/slowflush"
 	}
 	return s
 }
@@ -136,6 +142,9 @@ func New(server *mcp.Server, cfg Config) (*Link, error) {
 		h := mcp.NewSSEHandler(func(*http.Request) *mcp.Server { return server }, nil)
 		l.Handler = h
 		l.HTTP = &memhttp.Transport{Handler: h}
+		if cfg.SlowFlush {
+			l.HTTP.FirstFlushLag = time.Millisecond
+		}
 		l.ClientTransport = &mcp.SSEClientTransport{Endpoint: "http://mcp.example/sse", HTTPClient: l.HTTP.Client()}
 	case Stateful, Stateless:
 		opts := &mcp.StreamableHTTPOptions{Stateless: cfg.Kind == Stateless, JSONResponse: cfg.JSON}
